@@ -329,7 +329,7 @@ def finish_cond(ctx, tree, job):
     if len(beh) < 1000:
         raise Infra("CondIncl generator wrote only %d behaviours" % len(beh))
     beh.sort(key=lambda b: json.dumps(b["lines"]))
-    cases = cond_cases(beh, ctx.seed, 12 if q else 1)
+    cases = cond_cases(beh, ctx.seed, 16 if q else 1)
     mid = cases[len(cases) // 2]
     ctx.sample(dict(kind="directive sequence", text=cond_case_text(mid["lines"], mid["depth"]), expected_tokens=mid["exp"]))
     replay_cond(ctx, tree, cases)
@@ -340,7 +340,7 @@ def finish_cond(ctx, tree, job):
 
 
 # ---------------------------------------------------------- 2. include part
-FAMS = [("R1", 3), ("R2", 2), ("C", 2), ("G", 1), ("P", 1)]
+FAMS = [("R1", 3), ("R2", 2), ("C", 2), ("M", 2), ("G", 1), ("P", 1)]
 
 
 def incl_materialise(b, cdir, tree):
@@ -363,7 +363,8 @@ def incl_materialise(b, cdir, tree):
         argv += o
         gargv += o
     for o in b["pre"]:
-        x = {"D": ["-D" + o[1]], "U": ["-U" + o[1]], "inc": ["-include", o[1] + ".h"]}[o[0]]
+        x = {"D": ["-D" + o[1]], "U": ["-U" + o[1]], "inc": ["-include", o[1] + ".h"],
+             "DI": ["-DINC_%s=%s" % (o[1], '"%s.h"' % o[1] if o[-1] == "Q" else "<%s.h>" % o[1])]}[o[0]]     # the macro of a computed #include
         argv += x
         gargv += x
     return argv + [cdir + "/d0/main.c"], gargv + [cdir + "/d0/main.c"]
@@ -432,6 +433,7 @@ def replay_incl(ctx, tree, behs, oracle_only=False):
 
 
 CONTROLS = [("file-name cache consulted before the includer's directory", "C", 2, dict(CacheFirst=True)),
+            ("computed #include looked up beside the macro's definition", "M", 2, dict(CompDir='"macro"')),
             ("include_next_idx global", "R1", 3, dict(NextAlg='"global"')),
             ("-idirafter argument", "R1", 3, dict(FixIdirArg=False)),
             ("-idirafter order", "R1", 3, dict(FixIdirOrder=False)),
@@ -445,7 +447,7 @@ def submit_incl(ctx, pool):
         for d in ("/usr/local/include", "/usr/include/x86_64-linux-gnu", "/usr/include"):
             if os.path.exists("%s/%s.h" % (d, n)):
                 raise Infra("%s/%s.h exists on this machine; scenario header names would collide" % (d, n))
-    strides = dict(R1=5, R2=24, C=12, G=2, P=2) if q else dict(R1=1, R2=1, C=1, G=1, P=1)
+    strides = dict(R1=5, R2=24, C=12, M=36, G=2, P=2) if q else dict(R1=1, R2=1, C=1, M=1, G=1, P=1)
     jobs = dict(gen=[], ctl=[])
     for fam, nopt in FAMS:
         out = os.path.join(ctx.scratch, "incl-%s.ndjson" % fam)
@@ -453,7 +455,7 @@ def submit_incl(ctx, pool):
         jobs["gen"].append((fam, out, cfg, pool.submit(ctx.tlc, "pp", "Include", cfg, env=dict(OUT=out), workers=2 if q else 4, timeout=1500)))
     # sensitivity controls: the pinned algorithms must be rejected by TLC
     for name, fam, nopt, kw in CONTROLS:
-        cfg = ctx.cfg("pp", "Include_mc.cfg", Fam='"%s"' % fam, NOpt=nopt, Stride=2 if fam == "G" else (16 if fam == "C" else 12), **kw)
+        cfg = ctx.cfg("pp", "Include_mc.cfg", Fam='"%s"' % fam, NOpt=nopt, Stride=2 if fam == "G" else (24 if fam in ("C", "M") else 12), **kw)
         jobs["ctl"].append((name, pool.submit(ctx.tlc, "pp", "Include", cfg, workers=1, count=False)))
     return jobs
 
@@ -473,7 +475,7 @@ def finish_incl(ctx, tree, jobs):
         behs.sort(key=lambda b: json.dumps(b, sort_keys=True))
         replay_incl(ctx, tree, behs)
         total += len(behs)
-        if fam in ("R2", "C", "G"):
+        if fam in ("R2", "M", "G"):
             b = behs[len(behs) // 3]
             ctx.sample(dict(kind="include scenario", family=fam, options=b["kinds"], files={"d%d/%s.h" % (f["d"], f["n"]): f["text"] for f in b["files"]},
                             main=b["main"], expected_tokens=b["exp"]))
